@@ -182,6 +182,10 @@ def collect():
                         sites.append((rel, line_of(text, m.start()), 'SStatic %s' % ('true' if MUTABLE.search(m.group(3)) else 'false'), True, m.group(2)))
                 for m in re.finditer(r'\bthread_local\s*!', text):
                     sites.append((rel, line_of(text, m.start()), 'SThreadLocal', True, ''))
+                # shared mutable state behind a type alias or in a tuple struct (a field without a name: seeded change C20_k kept an AtomicUsize in the
+                # tuple that describes a decision's evaluator)
+                for m in re.finditer(r'\b(?:type|struct)\s+([A-Za-z_][A-Za-z0-9_]*)\s*(?:<[^>=;{]*>)?\s*(?:=\s*|\()([^;{]*\b(?:Mutex|Atomic[A-Za-z0-9]*|UnsafeCell|OnceCell|Once)\b[^;{]*);', text):
+                    sites.append((rel, line_of(text, m.start()), 'SField true', True, m.group(1)))
                 for m in re.finditer(r'\bunsafe\s+impl\b[^{;]*\b(Send|Sync)\b', text):
                     sites.append((rel, line_of(text, m.start()), 'SUnsafeSendSync', True, m.group(1)))
                 if rel == 'feel-number/src/dec.rs':
